@@ -16,7 +16,7 @@ PROP = {
                   "server with real query log, statistics and upstream double; clients bind generated 127.x source "
                   "addresses; excluded => no datagram / REFUSED over TCP and upstream log, query log and statistics "
                   "unchanged; admitted => served, logged and counted exactly once."
-                  " Servers without a configured server name (only the DoH path carries a ClientID) are part of the draw, and the blocked-hosts list of the model is the one GET /control/access/list reports after start-up (defaults included).",
+                  " Servers without a configured server name (only the DoH path carries a ClientID) are part of the draw, and the blocked-hosts list of the model is the one GET /control/access/list reports after start-up (defaults included). The vocabulary holds the same client in several spellings: IPv4 and 4-in-6 (::ffff:a.b.c.d) peers against IPv4 and mapped entries and networks, zoned link-local peers against zone-less entries, ClientID entries written with capitals against the lower-cased ClientID of the request; the model compares canonical forms.",
     "level_note": "A zoned client address against exact-address entries and unanchored host patterns ('*.d', '|d^') on "
                   "names the statement does not decide are tagged ambiguous and not asserted (counted in evidence). "
                   "4-in-6 client addresses never reach the hook (dnsproxy unmaps them) and are not generated. The UDP "
